@@ -70,6 +70,7 @@ pub fn run(a: &Args) {
         // a SONAME as long as a file name can be (255 bytes), and a longer one
         let long_so = format!("lib{}.so.7", "x".repeat(if case % 2 == 0 { 248 } else { 300 }));
         add("liblongname.so", rtext(&mut rng, 56), Some(rid(&mut rng)), Some(&long_so), 0, "r-x", false, &mut files);
+        add("cr🦀b 𝄞.so.2", rtext(&mut rng, 72), Some(rid(&mut rng)), None, 0, "r-x", false, &mut files);   // characters outside the BMP (two UTF-16 units each)
         add("archive.apk", rtext(&mut rng, 48), Some(rid(&mut rng)), Some("libemb.so"), 4096, "r-x", false, &mut files);
         // the build-id note in a SECOND PT_NOTE segment (the first holds another note), no section headers: the id can only
         // come from the program headers, also after the file has been deleted
